@@ -54,6 +54,19 @@ def mk(cfg, world):
     elif cfg.get("trip_mode") == "empty":
         kw["trip_on"] = rng_empty(cfg)  # explicitly empty: only class thresholds can trip
         eff = set()
+    shape = cfg.get("trip_container", "set")
+    if isinstance(kw.get("trip_on"), set) and shape != "set":
+        # trip_on is "any iterable of classes": other containers, and single-pass iterators (generator expression, filter, iter)
+        src = kw["trip_on"]
+        kw["trip_on"] = {
+            "frozenset": lambda: frozenset(src),
+            "list": lambda: sorted(src, key=lambda k: k.name) * 2,  # with duplicates
+            "tuple": lambda: tuple(src),
+            "generator": lambda: (k for k in EC if k in src),
+            "filter": lambda: filter(src.__contains__, EC),
+            "iter": lambda: iter(list(src)),
+            "dictkeys": lambda: dict.fromkeys(src).keys(),
+        }[shape]()
     real = CircuitBreaker(**kw)  # default clock argument = interposed time.monotonic
     mine = kw.get("trip_on")
     if isinstance(mine, set) and cfg.get("reuse_trip_set", True):
@@ -240,6 +253,9 @@ def work(ctx, tier):
             if rng.random() < 0.35:
                 cfg["class_thresholds_multi"] = {k_: rng.randint(1, 3) for k_ in rng.sample(["TRANSIENT", "SERVER_ERROR", "RATE_LIMIT", "UNKNOWN"], rng.randint(2, 3))}
                 ctx.cnt["configs_with_several_class_thresholds"] += 1
+            if "trip_mode" not in cfg and rng.random() < 0.5:
+                cfg["trip_container"] = rng.choice(["frozenset", "list", "tuple", "generator", "filter", "iter", "dictkeys"])
+                ctx.cnt["trip_on_given_as:" + cfg["trip_container"]] += 1
             ctx.cnt["trip_mode:" + cfg.get("trip_mode", "explicit")] += 1
             alpha = alphabet(cfg) + [("fail", "UNKNOWN"), ("fail", "RATE_LIMIT"), ("adv", 0.0), ("adv", cfg["window"] * 3)]
             weights = [3 if o[0] == "fail" else 2 if o[0] == "allow" else 1 for o in alpha]
